@@ -12,5 +12,5 @@ git apply "$sd/patch.diff" || { echo "PATCH DOES NOT APPLY"; }
 echo "== demo with patch"; cargo test -p pilota --offline --test seed_demo 2>&1 | grep -E "^test result|panicked|error(\[|:)" | head -5
 rm -rf pilota/tests
 echo "== baseline pilota tests with patch"; cargo test -p pilota --offline 2>&1 | grep -E "^test result" | head -2
-echo "== check $prop"; cd /verif; VERIF_REPO="$wt" ./check "$prop" > /tmp/seedcheck.$$ 2>&1; ce=$?; tail -8 /tmp/seedcheck.$$; rm -f /tmp/seedcheck.$$; echo "check-exit=$ce"
+echo "== check $prop"; cd ${VERIF_HOME:-/verif}; VERIF_REPO="$wt" ./check "$prop" > /tmp/seedcheck.$$ 2>&1; ce=$?; tail -8 /tmp/seedcheck.$$; rm -f /tmp/seedcheck.$$; echo "check-exit=$ce"
 cd "$wt"; git checkout -q -- . ; git status --short | head -3
